@@ -3,6 +3,7 @@
 //!   BPUSH|BPUSHV|BPUSHN <catalogue-type> ...  typed pushes (see wirelib::run)
 //!   BPUSHM <k> <ty1> <v1> .. <tyk> <vk>       k = 1: push_param, k = 2..5: push_param<k> with a DIFFERENT type per slot
 //!                                             (types from the MIX table below)
+//!   BOFF <n> | BRECV        re-make the body at buf_offset n / as the receive path delivers it (see eval)
 //!   BOLD <value>            push_old_param    BOLDS <k> <v1..vk>  push_old_params
 //!   PNEW                    parser over a snapshot of the body
 //!   PNEWX <hex>             parser over from_parts(<these bytes>, signature / descriptors / byte order of the body):
@@ -301,6 +302,41 @@ fn snapshot_parser(bytes: Option<Vec<u8>>) {
     PARSER.with(|p| *p.borrow_mut() = Some(snapshot.parser()));
 }
 
+fn rehome(m: &mut MarshalledMessage, n: usize) {
+    let mut buf = vec![0xAAu8; n];
+    buf.extend_from_slice(m.get_buf());
+    let fds = m.body.get_fds().to_vec();
+    let body = MarshalledMessageBody::from_parts(buf, n, fds, m.get_sig().to_owned(), m.body.byteorder());
+    m.body = body;
+}
+fn receive(m: &mut MarshalledMessage) -> bool {
+    use rustbus::wire::unmarshal::{unmarshal_dynamic_header, unmarshal_header, unmarshal_next_message};
+    let bo = m.body.byteorder();
+    let mut outer = rustbus::message_builder::MessageBuilder::with_byteorder(bo).signal("io.verif.C15", "Moved", "/io/verif/c15").build();
+    std::mem::swap(&mut outer.body, &mut m.body);
+    let got = (|| {
+        let mut wire = Vec::new();
+        rustbus::wire::marshal::marshal(&outer, std::num::NonZeroU32::new(1).unwrap(), &mut wire).ok()?;
+        wire.extend_from_slice(outer.get_buf());
+        let mut cursor = rustbus::wire::unmarshal_context::Cursor::new(&wire);
+        let header = unmarshal_header(&mut cursor).ok()?;
+        let dynheader = unmarshal_dynamic_header(&header, &mut cursor).ok()?;
+        let consumed = cursor.consumed();
+        unmarshal_next_message(&header, dynheader, wire, consumed, outer.body.get_fds().to_vec()).ok()
+    })();
+    match got {
+        Some(rx) if rx.get_sig() == outer.get_sig() && rx.get_buf() == outer.get_buf() => {
+            m.body = rx.body;
+            true
+        }
+        _ => {
+            std::mem::swap(&mut outer.body, &mut m.body);
+            rehome(m, 112);
+            false
+        }
+    }
+}
+
 fn eval(line: &str) -> String {
     let mut a = Args::new(line);
     let op = a.next();
@@ -318,6 +354,19 @@ fn eval(line: &str) -> String {
         "BRESET" => {
             BODY.with(|b| b.borrow_mut().body.reset());
             format!("ok {}", body_state())
+        }
+        // BOFF <n>: the same body (signature, bytes, descriptors, byte order) re-made by from_parts with n foreign bytes in
+        // front of it (buf_offset = n).  BRECV: the same body as it comes out of the receive path: put into a signal, marshalled
+        // (header + body in one buffer), decoded by unmarshal_header / unmarshal_dynamic_header / unmarshal_next_message; when
+        // that is not possible (signature longer than 255, ..) as BOFF 112.  Neither changes what the body IS: the model ignores them.
+        "BOFF" => {
+            let n = a.num() as usize;
+            BODY.with(|b| rehome(&mut b.borrow_mut(), n));
+            format!("ok {} via=parts", body_state())
+        }
+        "BRECV" => {
+            let wire = BODY.with(|b| receive(&mut b.borrow_mut()));
+            format!("ok {} via={}", body_state(), if wire { "wire" } else { "parts" })
         }
         "BPUSH" | "BPUSHV" | "BPUSHN" | "PGET" | "PGETN" => {
             let ty = a.next();
